@@ -51,6 +51,7 @@ extern void cm_native_error(const char *file, int line);
  * (CoordinateVector.hpp:68); .x() .y() .z() are lowered to .c[0..2] */
 struct cm_cv_double { double c[3]; };
 struct cm_cv_int_fast32_t { int_fast32_t c[3]; };
+struct cm_cv_int_fast8_t { int_fast8_t c[3]; };
 struct cm_cv_uint_fast32_t { uint_fast32_t c[3]; };
 struct cm_cv_uint32_t { uint32_t c[3]; };
 struct cm_cv_int { int c[3]; };
